@@ -33,7 +33,8 @@ def describe(tier, seed):
                 'one element.' % len(combos),
         'assumptions': ['zero-length variable values, DE1, bit 128, negative numbers, tz-aware dates, str for the ICC '
                         'element, PDS keys together with explicit carriers, duplicate tags are outside the domain',
-                        'subsets beyond singles, pairs and the structured long families are not enumerated',
+                        'subsets beyond singles, pairs (thorough: all triples of the packaged configuration) and the structured '
+                        'long families are not enumerated',
                         'generated configurations: bit b has kind KINDS[(b+s) mod 14]; quick uses 2 shifts (rotated '
                         'by VERIF_SEED), thorough all 14'],
         'bounds': {'combinations': [list(c) for c in combos][:40], 'tasks': len(ts)},
